@@ -1,7 +1,7 @@
 PID = "C11"
 WORKER = "w_c11"
 HEADER = ("From Coq Require Import List ZArith NArith QArith Qcanon String.\n"
-          "From Dimod Require Import Base.Util Model.Poly Model.Comb Model.Ser Model.Coo Model.ChkC11.\nImport ListNotations.")
+          "From Dimod Require Import Base.Util Model.Poly Model.Comb Model.Ser Model.Coo Model.InfoSer Model.ChkC11.\nImport ListNotations.")
 CHECK_FN = "check"
 N_QUICK = 2400
 N_THOROUGH = 60000
@@ -19,7 +19,8 @@ RULE = ("BQMs (float64/float32/object dtype, object models with Python float or 
 TRUSTED = ["model: coq/theories/Model/{Comb,Ser,Poly,ChkC11}.v (hand written mirror of sampleset.py to/from_serializable, "
            "serialization/utils.py, variables.py serialize_variable/deserialize_variable)",
            "Python json / pickle / copy modules and NumPy tolist/frombuffer are oracles (float printing, tuple->list)",
-           "energies, num_occurrences, extra vectors and info are compared by the worker in Python (exact ==, dtype and shape), not in Coq"]
+           "energies, num_occurrences and extra vectors are compared by the worker in Python (exact ==, dtype and shape), not in Coq; the info tree "
+           "(before, emitted document, after) is decided by the Coq walk of Model/InfoSer.v, with arrays numbered by the worker"]
 ASSUMPTIONS = ["generated numbers are small dyadics, exactly representable in every dtype used",
                "labels after a round trip are compared with Python dict semantics (a float label equal to its own position is handed back by Variables as that int), but the emitted variable_labels must carry ints for integer labels and floats for float labels, nested ones included; label pools contain integers beyond 2^53 so that a float detour changes the value",
                "object-dtype BQMs hold Python floats or, half of the time, Python ints for integral biases and offsets"]
